@@ -94,7 +94,7 @@ class Check(c01.Check):
                     out.append({'what': f'definition with one {name}.{ctor}({"" if argkind == "none" else argkind}) unit: {status}',
                                 'signature': f'c02:class-sweep:{name}', 'case': {'class': name, 'ctor': ctor, 'arg': argkind}})
         # every constructor argument of every unit class replaced in turn by NaN / None / a string
-        iv, err = common.run_impl('c01', 'invalid_sweep', {'mode': 'nrt', 'kinds': ['nan', 'none', 'str'] + (['inf'] if self.tier == 'thorough' else [])},
+        iv, err = common.run_impl('c01', 'invalid_sweep', {'mode': 'nrt', 'kinds': ['nan', 'none', 'str']},
                                   timeout=1800)
         if iv is None:
             self.notes.append('invalid-input sweep failed: ' + err[-300:])
@@ -184,8 +184,8 @@ class Check(c01.Check):
                     return {'what': f'graph with an invalid input ({[a[1] for a in e["ins"] if a[0] == "bad"]}) to '
                                     f'{e["cls"]}.{e["ctor"]} (event {base + j}) was compiled to bytes',
                             'signature': 'c02:invalid-accepted'}
-        if io.get('nan_const'):
-            return {'what': 'emitted definition carries a NaN/inf constant', 'signature': 'c02:nan-constant'}
+        if io.get('has_nan'):
+            return {'what': 'emitted definition carries a NaN constant', 'signature': 'c02:nan-constant'}
         if not canon.startswith('OK'):
             return None
         if io.get('out_nonaudio'):
